@@ -4,6 +4,7 @@ import (
 	"bufio"
 	"bytes"
 	"encoding/binary"
+	"errors"
 	"fmt"
 	"io"
 
@@ -24,7 +25,7 @@ type C11 struct{}
 func (e *C11) ID() string    { return "C11" }
 func (e *C11) Level() string { return "exploration" }
 func (e *C11) Rule() string {
-	return "each case generates a box tree in the shapes the reader walks: ftyp; moov{uuid-Canon{CNCV,CCTP,CTBO,CMT1-4,THMB,unknown...},mvhd,trak{tkhd,mdia}...}; uuid xpacket; uuid preview{PRVW}; mdat; unknown / free / skip / foreign-uuid boxes between top-level boxes and as children (including 8..15-byte last children), 32- and 64-bit sizes, FullBox headers; or a HEIF-shaped file (ftyp, meta{hdlr,pitm,iinf{infe},iprp{ipco,ipma},iloc}, mdat with the Exif item); a third of the cases then make one non-top-level box overstate or understate its size. The reader is driven through isobmff.Reader over a harness-owned 4 KiB bufio.Reader on a counting reader (stream position = bytes taken from the counting reader minus br.Buffered()), one ReadMetadata per top-level box, with recording callbacks that read everything (io.ReadAll), nothing, or a part. Oracle (well-formed trees): after ReadFTYP and after every ReadMetadata the position equals the start of the next top-level box; Exif callbacks for CMT1..CMT4 carry first-directory type IFD0/Exif/MakerNote/GPS, the payload's byte order, first-IFD offset and length, and their reader yields exactly the payload after the 8-byte TIFF header; the XMP callback yields exactly the xpacket payload; the preview callback gets the PRVW width/height/size and exactly the JPEG bytes. Malformed trees: the position never passes the end of the top-level box being processed and equals it when no error is returned. Also through DecodeCR3/PreviewCR3 on the well-formed CR3 shapes (preview bytes must equal the generator's). Non-trivial: >=2 top-level boxes after ftyp and >=1 callback or >=3 nested children; distinct = (top-level type sequence, malformation kind, callback behaviour)."
+	return "each case generates a box tree in the shapes the reader walks: ftyp; moov{uuid-Canon{CNCV,CCTP,CTBO,CMT1-4,THMB,unknown...},mvhd,trak{tkhd,mdia}...}; uuid xpacket; uuid preview{PRVW}; mdat; unknown / free / skip / foreign-uuid boxes between top-level boxes and as children (including 8..15-byte last children), 32- and 64-bit sizes, FullBox headers; or a HEIF-shaped file (ftyp, meta{hdlr,pitm,iinf{infe},iprp{ipco,ipma},iloc}, mdat with the Exif item); a third of the cases then make one non-top-level box overstate or understate its size. The reader is driven through isobmff.Reader over a harness-owned 4 KiB bufio.Reader on a counting reader (stream position = bytes taken from the counting reader minus br.Buffered()), one ReadMetadata per top-level box, with recording callbacks that read everything (io.ReadAll), nothing, or a part, and that in a sixth of the cases report an error afterwards (the position oracle holds regardless of what a callback returns). Oracle (well-formed trees): after ReadFTYP and after every ReadMetadata the position equals the start of the next top-level box; Exif callbacks for CMT1..CMT4 carry first-directory type IFD0/Exif/MakerNote/GPS, the payload's byte order, first-IFD offset and length, and their reader yields exactly the payload after the 8-byte TIFF header; the XMP callback yields exactly the xpacket payload; the preview callback gets the PRVW width/height/size and exactly the JPEG bytes. Malformed trees: the position never passes the end of the top-level box being processed and equals it when no error is returned. Also through DecodeCR3/PreviewCR3 on the well-formed CR3 shapes (preview bytes must equal the generator's). Non-trivial: >=2 top-level boxes after ftyp and >=1 callback or >=3 nested children; distinct = (top-level type sequence, malformation kind, callback behaviour)."
 }
 func (e *C11) Assumptions() []string {
 	return []string{"top-level boxes are well-formed in every case (the property's malformed variants concern children)", "callback content is asserted for the CR3 callbacks the statement names (CMT1-4, xpacket, PRVW); for the HEIF Exif item only positions are asserted"}
@@ -201,8 +202,16 @@ func (e *C11) Run(c *core.Ctx, idx int) {
 	for _, t := range top {
 		seq += t.Type + ","
 	}
-	cbMode := r.Intn(4) // 0 ReadAll, 1 nothing, 2 part, 3 odd-sized reads
-	desc := fmt.Sprintf("top=[%s] heif=%v malformed=%v cb=%d len=%d", seq, heif, malformed, cbMode, len(data))
+	cbMode := r.Intn(4)      // 0 ReadAll, 1 nothing, 2 part, 3 odd-sized reads
+	cbFail := r.Chance(1, 6) // the callback reports an error after consuming what its mode says
+	desc := fmt.Sprintf("top=[%s] heif=%v malformed=%v cb=%d cbfail=%v len=%d", seq, heif, malformed, cbMode, cbFail, len(data))
+	errCallback := errors.New("verif: callback rejects the payload")
+	cbErr := func() error {
+		if cbFail {
+			return errCallback
+		}
+		return nil
+	}
 	c.SetPhase(desc)
 	dumpInput(c, "isobmff", data)
 	viol := func(key, msg string) {
@@ -253,7 +262,7 @@ func (e *C11) Run(c *core.Ctx, idx int) {
 		got, clean := consume(src)
 		escaped("Exif")
 		if heif || malformed {
-			return nil
+			return cbErr()
 		}
 		name := map[ifds.IfdType]string{ifds.IFD0: "CMT1", ifds.ExifIFD: "CMT2", ifds.MknoteIFD: "CMT3", ifds.GPSIFD: "CMT4"}[h.FirstIfd]
 		cmtSeen[h.FirstIfd]++
@@ -279,14 +288,14 @@ func (e *C11) Run(c *core.Ctx, idx int) {
 		} else if !bytes.HasPrefix(pl[8:], got) {
 			viol("bmff:exif-bytes", name+" callback reader yielded bytes that are not a prefix of the payload")
 		}
-		return nil
+		return cbErr()
 	}
 	rd.XMPReader = func(src io.Reader) error {
 		callbacks++
 		got, clean := consume(src)
 		escaped("XMP")
 		if heif || malformed {
-			return nil
+			return cbErr()
 		}
 		if full {
 			if !bytes.Equal(got, parts.XMP) {
@@ -297,14 +306,14 @@ func (e *C11) Run(c *core.Ctx, idx int) {
 		} else if !bytes.HasPrefix(parts.XMP, got) {
 			viol("bmff:xmp-bytes", "XMP callback reader yielded bytes that are not a prefix of the payload")
 		}
-		return nil
+		return cbErr()
 	}
 	rd.PreviewImageReader = func(src io.Reader, h meta.PreviewHeader) error {
 		callbacks++
 		got, clean := consume(src)
 		escaped("preview")
 		if heif || malformed {
-			return nil
+			return cbErr()
 		}
 		if int(h.Size) != len(parts.Preview) || h.Width != parts.PrvwW || h.Height != parts.PrvwH {
 			viol("bmff:prvw-header", fmt.Sprintf("preview header %+v, file has size %d w %d h %d", h, len(parts.Preview), parts.PrvwW, parts.PrvwH))
@@ -318,7 +327,7 @@ func (e *C11) Run(c *core.Ctx, idx int) {
 		} else if !bytes.HasPrefix(parts.Preview, got) {
 			viol("bmff:prvw-bytes", "preview callback reader yielded bytes that are not a prefix of the payload")
 		}
-		return nil
+		return cbErr()
 	}
 	var err error
 	pk, key, text := core.Guard(func() {
@@ -343,10 +352,10 @@ func (e *C11) Run(c *core.Ctx, idx int) {
 			case p > end:
 				viol("bmff:escape:"+top[i].Type, fmt.Sprintf("processing top-level %s [%d,%d) consumed up to %d: beyond the box's end", top[i].Type, top[i].Off, end, p))
 				return
-			case p != end && (!malformed || err == nil):
+			case p != end && (!malformed || err == nil || (cbFail && errors.Is(err, errCallback))):
 				viol("bmff:position:"+top[i].Type, fmt.Sprintf("after top-level %s [%d,%d) the reader stands at %d (err=%v)", top[i].Type, top[i].Off, end, p, err))
 				return
-			case err != nil && !malformed:
+			case err != nil && !malformed && !(cbFail && errors.Is(err, errCallback)):
 				viol("bmff:error:"+top[i].Type, fmt.Sprintf("ReadMetadata failed on well-formed top-level %s: %v", top[i].Type, err))
 				return
 			}
